@@ -633,6 +633,8 @@ def streams(ck: Check) -> None:
                 n += 1
         ck.count("exhaustive_histories", n)
         flush(ck, pending)
+    ck.extra["wall_exhaustive_s"] = round(time.time() - t_start, 1)
+    t_prep = 0.0
 
     # (4)+(3) boundary families and structured random histories on every planned instance
     plan = instance_plan(ck)
@@ -644,9 +646,12 @@ def streams(ck: Check) -> None:
             ck.notes.append(f"time budget: {len(plan) - idx} of {len(plan)} planned instances not run")
             break
         spec = make_spec(rng, sysname, cname, fam, le, sup, quick)
+        t1 = time.time()
         ctx = Ctx(spec)
         make_pool(rng, ctx, quick)
         usable = prepare(ck, ctx)
+        t_prep += time.time() - t1
+        ck.extra["wall_tabulate_s"] = round(t_prep, 1)
         ck.count(f"instance_{sysname}")
         ck.count(f"controller_{cname}")
         ck.count(f"family_{fam}")
